@@ -1881,3 +1881,278 @@ func famFastPathUp(t *testing.T, seed int64, steps int) *Cluster {
 	c.converge(500 * time.Millisecond)
 	return c
 }
+
+// famMixedBatch (C08, BatchingFSM): what one FSM batch can hold on a leader.
+//  (1) A new leader's first commit hands the FSM one batch that mixes entries WITHOUT a future (the previous leader's
+//      commands, not known to be committed when it crashed) with entries WITH a future (its own callers'): every
+//      caller must get the response of its own entry.
+//  (2) An Apply and a Barrier issued back to back are dispatched, committed and batched together; the FSM is slow:
+//      the Barrier returns only after the command ahead of it in the same batch has been applied.
+func famMixedBatch(t *testing.T, seed int64, steps int) *Cluster {
+	opt := DefaultOptions(seed)
+	opt.Family = "mixedbatch"
+	opt.BatchFSM = true
+	opt.BatchApplyCh = seed%2 == 0
+	opt.MaxAppend = 4 + int(seed%3)
+	c := NewCluster(t, opt)
+	c.Bootstrap()
+	c.StartAll()
+	A := c.WaitLeader(2 * time.Second)
+	if A == "" {
+		return c
+	}
+	c.Apply(A, 0)
+	c.Settle("client")
+	c.Drive(100*time.Millisecond, nil, nil)
+	if c.Leader() != A {
+		c.converge(500 * time.Millisecond)
+		return c
+	}
+	// (1) A's next commands reach the followers, the commit index does not (responses to A are held); A crashes
+	for i := 0; i < 1+int(seed%3); i++ {
+		c.Apply(A, 0)
+		c.Settle("client")
+	}
+	noAnswersToA := func(r *Rpc) bool { return !(r.Src == A && r.Phase != phReq) }
+	c.Drive(30*time.Millisecond, noAnswersToA, nil)
+	c.Crash(A)
+	c.Settle("crash")
+	ok := c.Drive(3*time.Second, nil, func() bool { x := c.Leader(); return x != "" && x != A })
+	if !ok {
+		c.converge(500 * time.Millisecond)
+		return c
+	}
+	B := c.Leader()
+	// B's callers arrive before its no-op has committed; the answers to B's first AppendEntries (carrying the no-op)
+	// are lost, so the retry carries everything and one acknowledgement commits A's commands, the no-op and the new
+	// commands in one step
+	for i := 0; i < 1+int(seed/3)%3; i++ {
+		c.Apply(B, 0)
+		c.Settle("client")
+	}
+	for _, r := range c.Net.Pending() {
+		if r.Src == B && r.Kind == "ae" && r.Phase == phReq {
+			c.Net.Deliver(r)
+			c.Settle("deliver")
+		}
+	}
+	for _, r := range c.Net.Pending() {
+		if r.Src == B && r.Kind == "ae" && r.Phase != phReq {
+			c.Net.FailAfter(r)
+			c.Settle("loseresp")
+		}
+	}
+	c.Drive(200*time.Millisecond, nil, nil)
+	// (2) Apply + Barrier in one batch, slow FSM
+	if c.Leader() == B {
+		bn := c.byID[B]
+		bn.FSM.SetGated(true)
+		// the leader's main goroutine is busy storing a first command while the next calls queue up behind it:
+		// they are taken off the queue together (group commit), replicated and committed together
+		bn.inc.mu.Lock()
+		bn.inc.parkAt = 1
+		bn.inc.mu.Unlock()
+		c.Apply(B, 0)
+		c.Settle("client")
+		for i := 0; i < 1+int(seed%2); i++ {
+			c.Apply(B, 0)
+			c.Settle("client")
+		}
+		c.Barrier(B, 0)
+		c.Settle("client")
+		if bn.inc.Parked() {
+			bn.inc.Unpark()
+			c.Settle("diskdone")
+		}
+		c.Drive(150*time.Millisecond, nil, nil)
+		bn.FSM.SetGated(false)
+		c.Settle("fsm")
+		c.Drive(200*time.Millisecond, nil, nil)
+	}
+	c.Start(A)
+	c.Settle("restart")
+	c.converge(500 * time.Millisecond)
+	return c
+}
+
+// famXferNonVoter (C07): a leadership transfer aimed at a server that is not a voter in its own latest configuration.
+// The leader does not look at the target's suffrage, so TimeoutNow makes the non-voter campaign; it must never count
+// itself and never be elected. Variant 0: one voter + one caught-up non-voter. Variant 1: three voters, the demotion
+// of C is appended by the leader and replicated to C only (B still believes C votes), then the transfer to C.
+func famXferNonVoter(t *testing.T, seed int64, steps int) *Cluster {
+	opt := DefaultOptions(seed)
+	opt.Family = "xfernonvoter"
+	two := seed%2 == 0
+	if two {
+		opt.Servers = []string{"n1", "n2"}
+		opt.Initial = map[string]string{"n1": "V", "n2": "N"}
+	}
+	opt.PreVoteOff = seed%4 >= 2
+	c := NewCluster(t, opt)
+	c.Bootstrap()
+	c.StartAll()
+	A := c.WaitLeader(2 * time.Second)
+	if A == "" {
+		return c
+	}
+	for i := 0; i < 1+int(seed%3); i++ {
+		c.Apply(A, 0)
+		c.Settle("client")
+	}
+	c.Drive(100*time.Millisecond, nil, nil)
+	if c.Leader() != A {
+		c.converge(500 * time.Millisecond)
+		return c
+	}
+	var target string
+	var allow func(r *Rpc) bool
+	if two {
+		target = "n2"
+	} else {
+		var others []string
+		for _, id := range opt.Servers {
+			if id != A {
+				others = append(others, id)
+			}
+		}
+		B, C := others[int(seed/2)%2], others[1-int(seed/2)%2]
+		target = C
+		// nothing from A reaches B any more: B does not learn of the demotion
+		allow = func(r *Rpc) bool { return !(r.Src == A && r.Dst == B) }
+		c.Member(A, "demote", C, 0, 0)
+		c.Settle("client")
+		c.Drive(30*time.Millisecond, allow, nil)
+	}
+	op := c.Transfer(A, target)
+	c.Settle("client")
+	c.Drive(6*opt.Election, allow, nil)
+	if op != nil {
+		c.Tr.Emit("assertdone", A, M{"op": op.ID, "kind": "transfer", "bound_us": (6 * opt.Election).Microseconds()})
+	}
+	c.Drive(200*time.Millisecond, nil, nil)
+	c.converge(500 * time.Millisecond)
+	return c
+}
+
+// famCfgTruncElect (C12, C07): the isolated leader A appends "remove X" (never committed); Y wins the next term and
+// its no-op takes that index; A rejoins and the configuration entry is the first conflicting entry it truncates. Then
+// Y is lost for good: A and X are a majority of the real configuration and must elect a leader and accept writes --
+// which they do only if A went back to the committed configuration when it dropped the entry.
+func famCfgTruncElect(t *testing.T, seed int64, steps int) *Cluster {
+	opt := DefaultOptions(seed)
+	opt.Family = "cfgtruncelect"
+	opt.KeepMinorityDown = true
+	opt.PreVoteOff = seed%3 == 2
+	c := NewCluster(t, opt)
+	c.Bootstrap()
+	c.StartAll()
+	A := c.WaitLeader(2 * time.Second)
+	if A == "" {
+		return c
+	}
+	var others []string
+	for _, id := range opt.Servers {
+		if id != A {
+			others = append(others, id)
+		}
+	}
+	X, Y := others[int(seed)%2], others[1-int(seed)%2]
+	for i := 0; i < int(seed%3); i++ {
+		c.Apply(A, 0)
+		c.Settle("client")
+	}
+	c.RunQuiet(60*time.Millisecond, 5*time.Millisecond)
+	if c.Leader() != A {
+		c.converge(500 * time.Millisecond)
+		return c
+	}
+	c.isolate(A)
+	cmd := []string{"remove", "demote"}[int(seed/2)%2]
+	c.Member(A, cmd, X, 0, 0)
+	c.Settle("client")
+	c.dropPendingFrom(A)
+	// Y wins (X's own campaign messages are held back); its no-op takes the index of A's configuration entry
+	c.Drive(4*time.Second, func(r *Rpc) bool { return !(r.Src == X && (r.Kind == "pv" || r.Kind == "rv")) }, func() bool {
+		return c.Leader() == Y && c.byID[Y].Raft.CommitIndex() >= c.byID[Y].Raft.LastIndex()
+	})
+	c.healAll()
+	c.Drive(400*time.Millisecond, nil, nil)
+	if seed%4 == 3 {
+		c.Apply(c.Leader(), 0)
+		c.Settle("client")
+		c.Drive(100*time.Millisecond, nil, nil)
+	}
+	// Y is lost; A and X remain
+	if c.byID[Y].Up {
+		c.Crash(Y)
+		c.Settle("crash")
+	}
+	c.Drive(8*opt.Election, nil, nil)
+	c.converge(600 * time.Millisecond)
+	return c
+}
+
+// famSnapVote (C02, C03, C06): a voter C whose log store ends BEFORE its snapshot (TrailingLogs 0, snapshot at the
+// head of the log, then a restart so that nothing but the stores remembers the last index) is asked for its vote by a
+// candidate B that missed committed entries, while the third voter is gone. C's position is the later of its log and
+// its snapshot: it must refuse B; C itself wins and brings B up to date.
+func famSnapVote(t *testing.T, seed int64, steps int) *Cluster {
+	opt := DefaultOptions(seed)
+	opt.Family = "snapvote"
+	opt.Trailing = 0
+	opt.SnapThresh = 1000
+	opt.Mono = seed%2 == 1
+	opt.PreVoteOff = seed%3 == 2
+	opt.KeepMinorityDown = true
+	c := NewCluster(t, opt)
+	c.Bootstrap()
+	c.StartAll()
+	A := c.WaitLeader(2 * time.Second)
+	if A == "" {
+		return c
+	}
+	var others []string
+	for _, id := range opt.Servers {
+		if id != A {
+			others = append(others, id)
+		}
+	}
+	B, C := others[int(seed)%2], others[1-int(seed)%2]
+	for i := 0; i < 2+int(seed%3); i++ {
+		c.Apply(A, 0)
+		c.Settle("client")
+	}
+	c.Drive(100*time.Millisecond, nil, nil)
+	if c.Leader() != A {
+		c.converge(500 * time.Millisecond)
+		return c
+	}
+	c.isolate(B)
+	for i := 0; i < 3+int(seed/2)%3; i++ {
+		c.Apply(A, 0)
+		c.Settle("client")
+	}
+	c.Drive(100*time.Millisecond, nil, nil)
+	sop := c.UserSnapshot(C)
+	c.Settle("client")
+	c.Drive(200*time.Millisecond, nil, func() bool { return sop != nil && sop.Done })
+	c.Drive(40*time.Millisecond, nil, nil)
+	c.Crash(C)
+	c.Settle("crash")
+	c.Crash(A)
+	c.Settle("crash")
+	c.Start(C)
+	c.Settle("restart")
+	c.healAll()
+	// B and C are a majority; A stays down
+	c.Drive(10*opt.Election, nil, nil)
+	if l := c.Leader(); l != "" {
+		for i := 0; i < 2; i++ {
+			c.Apply(l, 0)
+			c.Settle("client")
+		}
+		c.Drive(200*time.Millisecond, nil, nil)
+	}
+	c.converge(600 * time.Millisecond)
+	return c
+}
